@@ -89,3 +89,6 @@ Definition apply_run (i : apply_in) : apply_out :=
   (verr_code (apply_momentum (perm_tab tab) nc_nat rc_nat ConsensusBlockTime gen (delegs_tab dt) cx mm),
    accepted (perm_tab tab) nc_nat rc_nat ConsensusBlockTime gen (delegs_tab dt) cx mm).
 Definition apply_eqb (a b : apply_out) : bool := (fst a =? fst b) && Bool.eqb (snd a) (snd b).
+
+(* candidates dated at the wall clock are verified only (not inserted) *)
+Definition apply_only_run (i : apply_in) : Z := fst (apply_run i).
